@@ -32,6 +32,13 @@ def cases(tier, seed):
                     for intr in ('other_sa', 'same_sa_other_ptr'):
                         for reps in (1, 3):
                             out.append(dict(kind=kind, seedkey=sk, nbytes=L, w=w, intr=intr, reps=reps, seed=seed * 977 + len(out)))
+    # boundary addresses: requester 0x00 (falsy), server 0x00
+    for kind in ('read', 'write'):
+        for sk in (False, True):
+            for L in (1, 20):
+                for (ca_, sa_) in ((0x00, D.SRV), (D.CLI, 0x00)):
+                    for intr in ('other_sa', 'same_sa_other_ptr'):
+                        out.append(dict(kind=kind, seedkey=sk, nbytes=L, w=255, intr=intr, reps=1, cli=ca_, srv=sa_, seed=seed * 977 + len(out)))
     return out
 
 
@@ -48,7 +55,8 @@ class Intruder(ScriptNode):
 
 
 def one_run(case, k, seed):
-    DW = D.Dm14World(seed, seedkey=case['seedkey'], windows=(case['w'], case['w']), latency=(0.0002, 0.003), respond_delay=0.004)
+    DW = D.Dm14World(seed, seedkey=case['seedkey'], windows=(case['w'], case['w']), latency=(0.0002, 0.003), respond_delay=0.004,
+                     cli_addr=case.get('cli', D.CLI), srv_addr=case.get('srv', D.SRV))
     I = Intruder(DW.W.bus, DW.sim)
     rng = random.Random(seed)
     L = case['nbytes']
@@ -65,7 +73,7 @@ def one_run(case, k, seed):
                 return
             if len(DW.W.bus.frames) - n_before == k and not armed:
                 armed.append(1)
-                sa = D.INTR if case['intr'] == 'other_sa' else D.CLI
+                sa = D.INTR if case['intr'] == 'other_sa' else DW.cli_addr
                 p2 = 0x92000003 if case['intr'] == 'other_sa' else 0x91000007
                 def shoot():
                     # inside the transaction window only: once the client's closing DM14 is on the bus, a later DM14 arrives after it
@@ -74,7 +82,7 @@ def one_run(case, k, seed):
                         if f.src == 'C' and C.split_id(f.can_id)['pf'] == C.PF_DM14 and len(f.data) == 8 and C.parse_dm14(f.data)['command'] == C.DM14_COMPLETED:
                             return
                     injected.append(DW.sim.now)
-                    I.send(C.make_id(6, 0, C.PF_DM14, D.SRV, sa), C.dm14(3, 1, C.DM14_READ, p2, 7))
+                    I.send(C.make_id(6, 0, C.PF_DM14, DW.srv_addr, sa), C.dm14(3, 1, C.DM14_READ, p2, 7))
                 for r in range(case['reps']):
                     # deferred (also r = 0): the hook runs before frame k's own deliveries are scheduled, bus order must put the intruder after it
                     DW.sim.after(r * 0.0007, shoot)
@@ -115,13 +123,13 @@ def run_case(case):
         M.m_live(viol, DW.W, 'dm14')
         # 1. the application never sees the intruder, and is not asked more often than un-intruded
         for p in DW.proceed_calls:
-            if p['sa'] == D.INTR or p['address'] == 0x91000007:
-                viol.add('intruder_served', '%s: proceed was called for the intruder (sa %02X, address %#x)' % (what, p['sa'], p['address']), how='proceed', **tag)
+            if p['sa'] == D.INTR or p['address'] == 0x91000007 or p['command'] not in (C.DM14_READ, C.DM14_WRITE):
+                viol.add('intruder_served', '%s: proceed was called for the intruder / a non-request (sa %02X, address %#x, command %d)' % (what, p['sa'], p['address'], p['command']), how='proceed', **tag)
         if len(DW.proceed_calls) > base_proceeds or len(DW.notify_calls) > base_notifies:
             viol.add('intruder_served', '%s: proceed ran %d (un-intruded %d), notify %d (%d) times'
                      % (what, len(DW.proceed_calls), base_proceeds, len(DW.notify_calls), base_notifies), how='extra_call', **tag)
         # 2. answers to the intruder: busy / operation failed only
-        intr_addr = D.INTR if case['intr'] == 'other_sa' else D.CLI
+        intr_addr = D.INTR if case['intr'] == 'other_sa' else DW.cli_addr
         t_inj = injected[0] if injected else 0
         if case['intr'] == 'other_sa':
             ans = I.answers
